@@ -9,7 +9,7 @@
     the read/write histories, for a peer sending messages from an arbitrary alphabet [A].
     All statements quantify over executions of ANY length. *)
 From Coq Require Import List Bool PArith ZArith.
-From KV Require Import Lts ConnServer ConnServerProofs Server ServerProofs.
+From KV Require Import Lts ConnServer ConnServerProofs Server ServerProofs HttpHandler HttpHandlerProofs.
 Import ListNotations.
 
 (* no send on a closed channel, no close of a closed channel: the connection goroutines never panic *)
@@ -151,3 +151,43 @@ Example C08_handler_outcomes_example :
   resp_of (MReq [BOk; BPanicStr; BTyped 1; BPlain; BPanicTyped 7]) =
   RItems [ISuccess; IFailed 256; IFailed 1; IFailed 256; IFailed 7].
 Proof. reflexivity. Qed.
+
+Local Open Scope Z_scope.
+
+(** The HTTP entry point (kmipserver/http.go; model HttpHandler.v: one exchange is a straight-line
+    function of the request's method, content type, Content-Length, delivered body length and of
+    whether the body decodes - the decoder, the request handler and the marshaller are the
+    environment).  For EVERY request: *)
+
+(* the body of the answer holds exactly one KMIP response message when the request reaches the
+   decoding step (POST, supported content type, 0 < Content-Length <= 1 MiB, body complete), none otherwise - never two *)
+Theorem C08_http_one_response : forall q,
+  messages (fst (serve q)) = if admitted q then 1 else 0.
+Proof. exact one_response. Qed.
+Print Assumptions C08_http_one_response.
+
+(* the request handler runs exactly once for an admitted request that decodes, never otherwise *)
+Theorem C08_http_handler_calls : forall q,
+  snd (serve q) = if admitted q && h_decodable q then 1 else 0.
+Proof. exact handler_calls. Qed.
+Print Assumptions C08_http_handler_calls.
+
+(* a correctly framed request that cannot be decoded gets the single invalid-message response *)
+Theorem C08_http_undecodable_answered : forall q,
+  admitted q = true -> h_decodable q = false -> serve q = (HResp RInvalidMessage, 0).
+Proof. exact undecodable_answered. Qed.
+Print Assumptions C08_http_undecodable_answered.
+
+(* any sequence of exchanges (no state is kept between them): one outcome per request in order,
+   one handler run per admitted decodable request, whatever was sent before *)
+Theorem C08_http_sequences : forall l,
+  length (fst (serve_all l)) = length l /\
+  snd (serve_all l) = Z.of_nat (length (filter (fun q => admitted q && h_decodable q) l)).
+Proof. exact serve_all_shape. Qed.
+Print Assumptions C08_http_sequences.
+
+Example C08_http_example :
+  serve (mkHreq true CtXml (Some 64) 64 false) = (HResp RInvalidMessage, 0) /\
+  serve (mkHreq true CtTtlv (Some 64) 64 true) = (HResp RHandler, 1) /\
+  serve (mkHreq true CtJson (Some 64) 10 true) = (HStatus 400, 0).
+Proof. repeat split; reflexivity. Qed.
